@@ -197,8 +197,10 @@ class ConcEnv:
         a, b = float(a), float(b)
         return abs(a - b) <= self.tol * (1 + max(abs(a), abs(b)))
 
-    def le(self, a, b): return float(a) <= float(b) + self.tol * (1 + abs(float(b)))
-    def lt(self, a, b): return float(a) < float(b) + self.tol * (1 + abs(float(b)))
+    # inequalities are evaluated exactly: the oracle computes them with the same float operations as the code;
+    # boundary (tie) models are handled by preferring interior models, not by a tolerance
+    def le(self, a, b): return float(a) <= float(b)
+    def lt(self, a, b): return float(a) < float(b)
     def ge(self, a, b): return self.le(b, a)
     def gt(self, a, b): return self.lt(b, a)
     def and_(self, *cs): return all(bool(c) for c in cs)
@@ -360,9 +362,9 @@ def run_path(harness, params, prefix, opts):
     # children: flips of free decisions made beyond the prefix
     dec = ctx.decisions
     for i in range(len(prefix), len(dec)):
-        if dec[i] is True:
-            out["children"].append(dec[:i] + [False])
-    out["decisions"] = len(dec)
+        if dec[i][0] is True and not dec[i][1]:
+            out["children"].append([list(d) for d in dec[:i]] + [[False, False]])
+    out["decisions"] = sum(1 for d in dec if not d[1])
     out["inconclusive_feasibility"] = len(ctx.inconclusive)
     pc = ctx.pc()
     out["functions"] = sorted(ld.entered)
